@@ -14,7 +14,25 @@ SUBSETS = {
 }
 
 
+def nsstore(ck, tier):
+    """NsStore.tla: the lock protocol of the in-memory namespace store (lookups under the read lock, reloads under the write lock)"""
+    n = 3 if tier == "quick" else 4
+    base = ("SPECIFICATION Spec\nCONSTANTS\n  Readers = {%s}\n  MaxSets = 2\n  MaxLookups = 2\n  LeakOnUnknown = %%s\n%%s"
+            "PROPERTIES ReloadGetsThrough LookupReturns\nCHECK_DEADLOCK FALSE\n" % ", ".join("r%d" % i for i in range(1, n + 1)))
+    r = tlc("NsStore", "ns.cfg", files={"ns.cfg": base % ("FALSE", "INVARIANTS TypeOK LockBalanced Exclusion\n")}, want_lines=False, workers=8, heap="2g")
+    ck.add_tlc(r)
+    if r.violation or not r.ok:
+        ck.violation("NsStore.tla: " + str(r.violation), {"tlc": r.raw_tail[-2000:]})
+    # the slip (no unlock on the path for an unknown name) must be visible to the model: as a leaked lock, and as a reload that waits for ever
+    r1 = tlc("NsStore", "ns1.cfg", files={"ns1.cfg": base % ("TRUE", "INVARIANTS LockBalanced\n")}, want_lines=False, workers=2, heap="2g")
+    r2 = tlc("NsStore", "ns2.cfg", files={"ns2.cfg": base % ("TRUE", "")}, want_lines=False, workers=2, heap="2g")
+    if not r1.violation or not r2.violation:
+        raise Inconclusive("NsStore.tla does not exhibit the leaked read lock / the reload that never gets through (the properties are vacuous)")
+
+
 def reconf(ck, binary, tier, pid):
+    if pid in ("C15", "C19"):
+        nsstore(ck, tier)
     for stale, want_ok in (("FALSE", True), ("TRUE", False)):
         cfg = write_cfg(['Mode = "small"', "Stale = %s" % stale, "NRuns = 0", "NSteps = 0"], invariants=["CurrentConfig"])
         r = tlc("Reconf", "r.cfg", files={"r.cfg": cfg}, want_lines=False, workers=4, heap="2g")
